@@ -403,9 +403,11 @@ def replay_read_map(vals, kind):
                 with open(fn, 'wb') as f:
                     f.write(bits)
             else:
-                flags = bytearray(65536)
+                # SpecEmu map: bit 0 = executed; the other bits (read / written ...) may be set on executed and on
+                # other addresses alike
+                flags = bytearray(rnd.choice((0, 2, 4, 6)) if rnd.random() < 0.3 else 0 for _ in range(65536))
                 for a in listed:
-                    flags[a] = 1
+                    flags[a] = rnd.choice((1, 1, 3, 5, 7, 255))
                 with open(fn, 'wb') as f:
                     f.write(flags)
             import io
